@@ -19,8 +19,8 @@ PLAN = dict(
                           "always inside an explicit task_arena (the implicit arena's size depends on the machine)"],
     floor=dict(quick=200, thorough=4000),
     tiers=dict(
-        quick=[det("rel", H, "cs-rel", 16, 450, 4, tso=True, time_cap=24),
-               det("dbg", H, "cs-dbg", 16, 240, 4, tso=True, time_cap=18),
+        quick=[det("rel", H, "cs-rel", 16, 320, 4, tso=True, time_cap=22),
+               det("dbg", H, "cs-dbg", 16, 200, 4, tso=True, time_cap=16),
                cmd("seq", RC, "plain", 1, ["150"], link_tbb=False, ldflags=["-lrapidcheck"])],
         thorough=[det("rel", H, "cs-rel", 16, 7000, 5, tso=True, time_cap=330),
                   det("dbg", H, "cs-dbg", 16, 3400, 5, tso=True, time_cap=200),
